@@ -18,8 +18,15 @@ from harness import gfi
 from harness.gfi_ref import Missing, Unspecified, infer, ref, ref_score, site_lp, static_part
 
 
-def _obs_trace(tr, atys, rty, universe):
-    args = gfi.from_jax(tr.get_args(), ["tup", atys])
+def _obs_trace(tr, atys, rty, universe, stored=None):
+    if stored is not None:
+        # the trace of a closure is the wrapped function's: its arguments are stored ++ call arguments
+        full = gfi.from_jax(tr.get_args(), ["tup", [["int"]] * len(stored) + list(atys)])
+        if full[1:1 + len(stored)] != list(stored):
+            raise gfi.NotIntegral(f"closure trace does not hold the stored arguments: {full}")
+        args = ["t"] + full[1 + len(stored):]
+    else:
+        args = gfi.from_jax(tr.get_args(), ["tup", atys])
     ret = gfi.canon_val(gfi.from_jax(tr.get_retval(), rty))
     score = gfi._to_int(tr.get_score())
     ch, errs = gfi.observe_choices(tr.get_choices(), universe)
@@ -61,6 +68,7 @@ def run_case(case):
     rty, universe = infer(prog, atys)
     universe = list(dict.fromkeys(list(universe) + [tuple(p) for p in case.get("extra_paths", [])]))
     gf = gfi.build(prog)
+    stored = list(prog[2]) if prog[0] == "closure" else None
     results, preds = [], []
     cur = None          # real trace
     cur_obs = None
@@ -76,7 +84,7 @@ def run_case(case):
         fails = []
         # C01: the trace agrees with assess on its own choices and arguments
         try:
-            sc, rv = gf.assess(tr.get_choices(), tr.get_args())
+            sc, rv = tr.get_gen_fn().assess(tr.get_choices(), tr.get_args())
             sc = gfi._to_int(sc)
             rv = gfi.canon_val(gfi.from_jax(rv, rty))
             if sc != obs["score"] or rv != obs["ret"]:
@@ -109,12 +117,16 @@ def run_case(case):
     for op in ops:
         kind = op[0]
         fails = []
+        if cur is None and kind not in ("sim", "gen", "assess", "propose"):
+            results.append({"err": "no-trace"})      # an earlier operation failed: nothing to operate on
+            preds.append(fails)
+            continue
         try:
             if kind == "sim":
                 _, seed, args = op
                 aj = gfi.to_jax(args, ["tup", atys])
                 tr = J(gf.simulate)(jax.random.key(seed), aj)
-                obs = _obs_trace(tr, atys, rty, universe)
+                obs = _obs_trace(tr, atys, rty, universe, stored)
                 fails += check_trace(obs, tr, kind)
                 cur, cur_obs, last_bwd, last_edit = tr, obs, None, None
                 results.append({"ok": True, "tr": obs})
@@ -123,7 +135,7 @@ def run_case(case):
                 aj = gfi.to_jax(args, ["tup", atys])
                 chm = gfi.build_cmap(c, case.get("cmap_style", 0))
                 tr, w = J(gf.importance)(jax.random.key(seed), chm, aj)
-                obs = _obs_trace(tr, atys, rty, universe)
+                obs = _obs_trace(tr, atys, rty, universe, stored)
                 w = gfi._to_int(w)
                 fails += check_trace(obs, tr, kind)
                 vc = _valid_constraint(c)
@@ -141,7 +153,7 @@ def run_case(case):
                 results.append({"ok": True, "tr": obs, "w": w})
             elif kind in ("assess", "assessSelf"):
                 if kind == "assessSelf":
-                    chm, aj = cur.get_choices(), cur.get_args()
+                    chm, aj = cur.get_choices(), gfi.to_jax(cur_obs["args"], ["tup", atys])
                     cdict, argsv = cur_obs["choices"], cur_obs["args"]
                 else:
                     _, c, args = op
@@ -179,13 +191,19 @@ def run_case(case):
                     sel = gfi.build_sel(selt)
                     req = Regenerate(sel)
                     ad = _tags_to_argdiffs(aj, op[4] if len(op) > 4 else ["U"] * len(atys))
-                tr, w, rd, bwd = J(lambda k, t, a: req.edit(k, t, a))(jax.random.key(seed), cur, ad)
-                obs = _obs_trace(tr, atys, rty, universe)
+                if stored is not None:
+                    # a closure's trace belongs to the wrapped function: edit through the closure's own method
+                    tr, w, rd, bwd = J(lambda k, t, a: gf.edit(k, t, req, a))(jax.random.key(seed), cur, ad)
+                else:
+                    tr, w, rd, bwd = J(lambda k, t, a: req.edit(k, t, a))(jax.random.key(seed), cur, ad)
+                obs = _obs_trace(tr, atys, rty, universe, stored)
                 w = gfi._to_int(w)
                 if case.get("retag") and kind == "upd" and any(t == "N" for t in op[5]):
                     # C08: an honest NoChange tag must not change the edit (switch indices excepted)
-                    tr_u, w_u, _, bwd_u = req.edit(jax.random.key(seed), cur, _tags_to_argdiffs(aj, ["U"] * len(atys)))
-                    o_u = _obs_trace(tr_u, atys, rty, universe)
+                    ad_u = _tags_to_argdiffs(aj, ["U"] * len(atys))
+                    tr_u, w_u, _, bwd_u = (gf.edit(jax.random.key(seed), cur, req, ad_u) if stored is not None
+                                           else req.edit(jax.random.key(seed), cur, ad_u))
+                    o_u = _obs_trace(tr_u, atys, rty, universe, stored)
                     same = (o_u["choices"], o_u["score"], o_u["ret"], gfi._to_int(w_u)) == (obs["choices"], obs["score"], obs["ret"], w)
                     if same and isinstance(bwd, Update) and isinstance(bwd_u, Update):
                         same = gfi.observe_choices(bwd.constraint, universe)[0] == gfi.observe_choices(bwd_u.constraint, universe)[0]
@@ -272,7 +290,7 @@ def run_case(case):
                 inner = Update(gfi.build_cmap(payload, case.get("cmap_style", 0))) if sub == "upd" else Regenerate(gfi.build_sel(payload))
                 req = IndexRequest(jnp.asarray(k), inner)
                 tr, w, rd, bwd = req.edit(jax.random.key(seed), cur, Diff.no_change(cur.get_args()))
-                obs = _obs_trace(tr, atys, rty, universe)
+                obs = _obs_trace(tr, atys, rty, universe, stored)
                 w = gfi._to_int(w)
                 fails += check_trace(obs, tr, kind)     # C01 / C02 after an index edit (C12: "after any ... index edit")
                 for p_, v_ in obs["choices"].items():   # C11: only element k is affected
@@ -294,7 +312,7 @@ def run_case(case):
                 rv = gfi.canon_val(gfi.from_jax(rv, rty))
                 ch, _ = gfi.observe_choices(chm, universe)
                 tr = gf.simulate(jax.random.key(seed), aj)   # C38: propose == simulate for the same key
-                o2 = _obs_trace(tr, atys, rty, universe)
+                o2 = _obs_trace(tr, atys, rty, universe, stored)
                 if (ch, sc, rv) != (o2["choices"], o2["score"], o2["ret"]):
                     fails.append({"prop": "C38", "why": "propose != (choices, score, retval) of simulate with the same key",
                                   "propose": [sc, rv], "simulate": [o2["score"], o2["ret"]]})
@@ -307,7 +325,7 @@ def run_case(case):
                 ad = _tags_to_argdiffs(aj, tags)
                 old_obs = cur_obs
                 tr, w, rd, bwd = EmptyRequest().edit(jax.random.key(seed), cur, ad)
-                obs = _obs_trace(tr, atys, rty, universe)
+                obs = _obs_trace(tr, atys, rty, universe, stored)
                 w = gfi._to_int(w)
                 fails += check_trace(obs, tr, kind)
                 if all(t == "N" for t in tags):
@@ -315,7 +333,7 @@ def run_case(case):
                         fails.append({"prop": "C38", "why": "EmptyRequest with unchanged arguments is not the identity with weight 0", "w": w})
                 else:   # must equal an empty Update
                     tr2, w2, _, _ = Update(gfi.build_cmap([])).edit(jax.random.key(seed), cur, ad)
-                    o2 = _obs_trace(tr2, atys, rty, universe)
+                    o2 = _obs_trace(tr2, atys, rty, universe, stored)
                     if (obs["choices"], obs["score"], obs["ret"], w) != (o2["choices"], o2["score"], o2["ret"], gfi._to_int(w2)):
                         fails.append({"prop": "C38", "why": "EmptyRequest with changed arguments != Update(empty)"})
                 cur, cur_obs, last_bwd, last_edit = tr, obs, bwd, None
